@@ -224,7 +224,16 @@ def go_build(driver, pkg=None, timeout=900, module_dir=None, roots=("overlay",),
     exe = os.path.join(BUILD, "bin", f"{driver}-{tag}")
     os.makedirs(os.path.dirname(exe), exist_ok=True)
     pkg = pkg or f"./internal/zz_verif/{driver}"
-    cmd = ["go", "build", "-tags", tags, "-overlay", ov, "-o", exe] + (["-race"] if race else []) + [pkg]
+    extra = []
+    if module_dir and os.path.abspath(module_dir) != os.path.abspath(REPO):
+        # build in a nested module (integration_tests) without ever touching its go.mod/go.sum:
+        # -mod=mod may rewrite them, so point -modfile at a scratch copy
+        mf = os.path.join(BUILD, f"modfile-{tag}-{os.path.basename(module_dir)}.mod")
+        shutil.copyfile(os.path.join(module_dir, "go.mod"), mf)
+        if os.path.exists(os.path.join(module_dir, "go.sum")):
+            shutil.copyfile(os.path.join(module_dir, "go.sum"), mf[:-4] + ".sum")
+        extra = ["-modfile", mf]
+    cmd = ["go", "build", "-tags", tags, "-overlay", ov, "-o", exe] + extra + (["-race"] if race else []) + [pkg]
     rc, out = sh(cmd, cwd=module_dir or REPO, env=goenv(), timeout=timeout)
     if rc != 0:
         return False, out[-3000:]
